@@ -130,7 +130,7 @@ for i in ids:
             "thorough_cmd": f"./check {i} thorough",
             "evidence_file": f"/verif/evidence/{i}.json",
             "replay_cmd_template": f"./check {i} --replay {{path}}",
-            "engine": "mcx",
+            "engine": {"C05": "stateright", "C25": "c25-scheduler", "C21": "cli-runner", "C22": "cli-runner", "C23": "cli-runner"}.get(i, "mcx"),
             "level_claimed": {"category": cat, "text": text, "design_ref": ref},
             "level_note": note,
             "technique": tech,
@@ -153,7 +153,10 @@ m = {
    "add_only": True,
  },
  "engines": [
-   {"name": "mcx", "path": "/verif/mc/mcx", "serves_properties": sorted(CHECKS), "kind_free_text": "in-house exhaustive enumerator / explicit-state BFS / DFS schedule explorer; every explored element is executed on the real code and judged by an independent reference model"},
+   {"name": "mcx", "path": "/verif/mc/mcx", "serves_properties": sorted(CHECKS), "kind_free_text": "in-house engine: index-addressed exhaustive enumeration of bounded input/program spaces sharded over worker threads, explicit-state BFS with canonical-state de-duplication, counters/evidence/replay/known-findings; every explored element is executed on the real code and judged by an independent reference model (mcx::refsem, props::ir_interp, props::pcode)"},
+   {"name": "stateright", "path": "cargo registry (stateright 0.31)", "serves_properties": ["C05"], "kind_free_text": "explicit-state model checker; the C05 model's transitions call the real MemRegion methods; unique-state and transition counts are cross-checked against mcx::bfs"},
+   {"name": "c25-scheduler", "path": "/verif/mc/shim_crossbeam_channel/src/sched.rs + /verif/mc/c25_logmc", "serves_properties": ["C25"], "kind_free_text": "stateless DFS over all grant sequences of real OS threads running the unmodified utils/log.rs: channel operations are gates of a controller, pthread_create/pthread_join are interposed, deadlock detection, replay-determinism assertion"},
+   {"name": "cli-runner", "path": "/verif/mc/props/src/shared/cli_run.rs + /verif/mc/preload/getrandom.c", "serves_properties": ["C21", "C22", "C23"], "kind_free_text": "runs the real cwe_checker binary (built from /repo with the hook cfg) on generated P-Code/ELF inputs; LD_PRELOAD shim owning the hash seeds for C23"},
  ],
  "checks": checks,
  "not_applicable": na,
